@@ -20,7 +20,7 @@ and 2-4 saves. After every save the file is re-loaded with the library and for e
 Observations are values of the re-loaded file (DESIGN 2.4); when a file cannot be re-loaded (a count written by the
 user / defect F2) the values serialised from the live sections are used and the case is tagged `obs:sections`.
 """
-import contextlib, io, os, shutil, struct, tempfile, math
+import contextlib, copy, io, os, shutil, struct, tempfile, math
 from harness import common
 
 GROWABLE = ("trigger_data", "variable_data", "units", "terrain_data")    # struct lists the histories grow / shrink
@@ -551,7 +551,9 @@ class Case:
                 return
             cont, rname = self.fields[key]
             setattr(cont, rname, val)
-            self.touched[key], self.uval[key] = True, val
+            # keep an independent copy: the section now owns `val`, and code that refreshes a list in place must not
+            # be able to rewrite the oracle's record of what the user assigned
+            self.touched[key], self.uval[key] = True, copy.deepcopy(val)
             if rname in self.env.shape_names or is_counted(cont.retriever_map[rname]):
                 self.shape_edit = True
             self.cmd(f"user {key} {canon(val, self._dt(cont, rname))}", "ok")
@@ -570,7 +572,7 @@ class Case:
             if i >= len(recs):
                 return
             setattr(recs[i], f, val)
-            self.rtouched[(L.key, i, f)] = val
+            self.rtouched[(L.key, i, f)] = copy.deepcopy(val)
             self.cmd(f"urec {L.key} {i} {f} {canon(val, recs[i].retriever_map[f].datatype)}", "ok")
             self.role(f"{L.key}[].{f}", "u")
         elif k == "ulist":
